@@ -48,6 +48,7 @@ type c08sInput struct {
 	Reqs    []c08sReq `json:"reqs"`
 	Sched   []int     `json:"sched"`   // 0 producer | 1+2i requester i | 2+2i consumer i
 	Tracker bool      `json:"tracker"` // requester 0 = from the lowest block, scheduled first, received after every producer step
+	Commit  bool      `json:"commit"`  // a requester whose lock is taken really calls RLock() / Lock() and waits inside (see stepReq)
 	Shape   string    `json:"shape"`
 }
 type c08sStep struct {
@@ -56,7 +57,9 @@ type c08sStep struct {
 	En   bool  `json:"en"`
 	Pos  int   `json:"pos"`
 	Arr  bool  `json:"arr,omitempty"`
-	QLen []int `json:"q"`
+	Auto bool  `json:"auto,omitempty"` // not from the input schedule: a requester waiting inside RLock()/Lock() was let in by this unlock
+	QI   int   `json:"qi,omitempty"` // 1 + index of the requester whose channel length changed in this step (0: none)
+	QV   int   `json:"qv,omitempty"` // its new value: 1 + len(channel); 0 = SourceFromXxx has not returned a source
 }
 type c08sReqObs struct {
 	c08Sub
@@ -92,8 +95,9 @@ type c08sThread struct {
 	arrive chan string
 	done   chan struct{}
 	// scheduler-side view
-	pos     int
-	arrived bool // producer, pos 1: RWMutex.Lock() has returned
+	pos       int
+	arrived   bool // producer, pos 1: RWMutex.Lock() has returned
+	committed bool // requester, pos 0 / 2: released into RLock() / subscribersLock.Lock() while the lock was taken; it waits inside
 	// requester result
 	src   bstream.Source
 	recvd []*bstream.PreprocessedBlock // consumer side (appended by the consumer goroutine only)
@@ -324,6 +328,8 @@ func c08sRun(in *c08sInput) *c08sObs {
 		}
 		return rts[i].src.(*hub.Subscription)
 	}
+	counts := map[string]int{}
+	lastQ := make([]int, nreq)
 	readersInside := func() int {
 		n := 0
 		for _, t := range rts {
@@ -381,6 +387,31 @@ func c08sRun(in *c08sInput) *c08sObs {
 		}
 	}
 
+	var auto []int // requesters let in by the unlock of the current step
+	// the requester really calls RLock() / Lock() although the lock is taken: it waits inside
+	commit := func(t *c08sThread) bool {
+		select {
+		case t.gate <- struct{}{}:
+		case <-time.After(c08sWatchdog):
+			hang(fmt.Sprintf("requester %d not parked (pos %d)", t.idx, t.pos))
+			return false
+		}
+		t.committed = true
+		counts["committed"]++
+		return true
+	}
+	pollReq := func(t *c08sThread) bool { // non-blocking: has the waiting requester come through
+		select {
+		case n := <-t.arrive:
+			x.place(t, n)
+			return true
+		case <-t.done:
+			x.place(t, "")
+			return true
+		default:
+			return false
+		}
+	}
 	stepProd := func() (en bool, alive bool) {
 		t := prod
 		switch {
@@ -435,7 +466,25 @@ func c08sRun(in *c08sInput) *c08sObs {
 				return false, true
 			}
 			return true, release(t)
-		case t.pos == 2 || t.pos == 4 || t.pos == 5:
+		case t.pos == 4:
+			// RWMutex.Unlock(): the readers that wait inside RLock() are let in before any later writer
+			if !release(t) {
+				return true, false
+			}
+			for i, q := range rts {
+				if q.pos == 0 && q.committed {
+					n, ok := x.await(q)
+					if !ok {
+						hang(fmt.Sprintf("requester %d waiting in RLock() was not let in by Unlock()", i))
+						return true, false
+					}
+					q.committed = false
+					x.place(q, n)
+					auto = append(auto, 1+2*i)
+				}
+			}
+			return true, true
+		case t.pos == 2 || t.pos == 5:
 			return true, release(t)
 		}
 		return false, true // 9: every block processed (or an unexpected position)
@@ -444,20 +493,77 @@ func c08sRun(in *c08sInput) *c08sObs {
 		t := rts[i]
 		switch t.pos {
 		case 0:
+			if t.committed { // inside RLock(): let in by the producer's Unlock step only
+				if pollReq(t) {
+					t.committed = false
+					return true, true
+				}
+				return false, true
+			}
 			if !fk.TryRLock() {
-				return false, true // a writer holds or has announced
+				// a writer holds or has announced
+				if in.Commit {
+					if !commit(t) {
+						return false, false
+					}
+				}
+				return false, true
 			}
 			fk.RWMutex.RUnlock()
 			return true, release(t)
 		case 2:
+			if t.committed { // inside subscribersLock.Lock(): let in by the holder's Unlock step only
+				if pollReq(t) {
+					t.committed = false
+					return true, true
+				}
+				return false, true
+			}
 			if !th.fh.VerifSubscribersLockFree() {
+				if in.Commit {
+					if !commit(t) {
+						return false, false
+					}
+				}
 				return false, true
 			}
 			return true, release(t)
+		case 5:
+			// subscribersLock.Unlock(): ONE of the requesters waiting inside Lock() gets the mutex
+			if !release(t) {
+				return true, false
+			}
+			var waiting []int
+			for j, q := range rts {
+				if q.pos == 2 && q.committed {
+					waiting = append(waiting, j)
+				}
+			}
+			if len(waiting) > 0 {
+				deadline := time.Now().Add(c08sWatchdog)
+				for got := false; !got; {
+					for _, j := range waiting {
+						if pollReq(rts[j]) {
+							rts[j].committed = false
+							auto = append(auto, 1+2*j)
+							got = true
+							break
+						}
+					}
+					if !got && time.Now().After(deadline) {
+						hang("no requester waiting in subscribersLock.Lock() got the mutex after Unlock()")
+						return true, false
+					}
+					if !got {
+						runtime.Gosched()
+					}
+				}
+			}
+			return true, true
 		case 3:
 			t.pos = 4 // the read of h.subscribers: same statement as the write
 			return true, true
-		case 1, 4, 5:
+		case 1, 4:
 			return true, release(t)
 		case 6:
 			if !release(t) {
@@ -506,10 +612,31 @@ func c08sRun(in *c08sInput) *c08sObs {
 			return int(atomic.LoadInt32(&rts[(tid-2)/2].nrecv))
 		}
 	}
-	counts := map[string]int{}
+	record := func(st c08sStep) {
+		st.Pos = posOf(st.T)
+		q := qlens()
+		for j := range q {
+			if q[j] != lastQ[j] {
+				if st.QI != 0 {
+					x.flag(1, fmt.Sprintf("step %d changed the channel length of two subscriptions", len(obs.Steps)))
+				}
+				st.QI, st.QV = j+1, q[j]
+			}
+		}
+		lastQ = q
+		obs.Steps = append(obs.Steps, st)
+		if st.En {
+			counts["enabled"]++
+		} else if st.Skip {
+			counts["skipped"]++
+		} else {
+			counts["disabled"]++
+		}
+	}
 	doStep := func(tid int) (bool, bool) {
 		st := c08sStep{T: tid}
 		alive := true
+		auto = nil
 		switch {
 		case tid == 0:
 			st.En, alive = stepProd()
@@ -530,15 +657,14 @@ func c08sRun(in *c08sInput) *c08sObs {
 		default:
 			st.Skip, st.En, alive = stepCons((tid - 2) / 2)
 		}
-		st.Pos = posOf(tid)
-		st.QLen = qlens()
-		obs.Steps = append(obs.Steps, st)
-		if st.En {
-			counts["enabled"]++
-		} else if st.Skip {
-			counts["skipped"]++
-		} else {
-			counts["disabled"]++
+		// the requesters let in by this step's unlock come right after it, as schedule entries of their own
+		// (the real locks serve them before anybody else; in the model that is this particular schedule)
+		let := auto
+		auto = nil
+		record(st)
+		for _, a := range let {
+			record(c08sStep{T: a, En: true, Auto: true})
+			counts["let-in"]++
 		}
 		return st.En, alive && atomic.LoadInt32(&x.anomaly) != 2
 	}
@@ -558,8 +684,15 @@ func c08sRun(in *c08sInput) *c08sObs {
 	for round := 0; alive && len(obs.Steps) < 9000; round++ {
 		moved := false
 		for tid := 0; tid < nthreads && alive; tid++ {
-			if tid >= 2 && tid%2 == 0 && in.Reqs[(tid-2)/2].Lazy {
-				continue
+			if tid >= 2 && tid%2 == 0 {
+				i := (tid - 2) / 2
+				if in.Reqs[i].Lazy {
+					continue
+				}
+				// a consumer with nothing to receive is not scheduled here (the explicit schedule has such entries)
+				if s := subOf(i); s == nil || s.IsTerminating() || s.VerifLen() == 0 {
+					continue
+				}
 			}
 			// entries that cannot move any more are not repeated for ever
 			if tid == 0 && prod.pos == 9 {
@@ -622,8 +755,8 @@ func c08sRun(in *c08sInput) *c08sObs {
 	if n, ok := x.note.Load().(string); ok {
 		obs.Note = n
 	}
-	obs.Note += fmt.Sprintf(" enabled=%d disabled=%d skipped=%d writer-waits=%d rlock-refused=%d mutex-busy=%d", counts["enabled"], counts["disabled"],
-		counts["skipped"], counts["writer-waits"], counts["rlock-refused"], counts["mutex-busy"])
+	obs.Note += fmt.Sprintf(" enabled=%d disabled=%d skipped=%d writer-waits=%d rlock-refused=%d mutex-busy=%d waits-inside=%d let-in=%d", counts["enabled"], counts["disabled"],
+		counts["skipped"], counts["writer-waits"], counts["rlock-refused"], counts["mutex-busy"], counts["committed"], counts["let-in"])
 
 	// ---- teardown: everybody runs freely to the end
 	atomic.StoreInt32(&x.free, 1)
@@ -692,10 +825,10 @@ func c08sGen(r *Rng, i int, tier string) any {
 	in := &c08sInput{}
 	in.First = uint64([]int{0, 0, 1}[r.Intn(3)])
 	in.Kept = []int{0, 2, 5, 10}[r.Intn(4)]
-	slow := i%10 == 7 // a consumer that never reads is dropped after 100 events
+	slow := i%15 == 7 // a consumer that never reads is dropped after 100 events
 	sc := &c07Input{}
 	if slow {
-		c07ExtraBlocks = 90
+		c07ExtraBlocks = 45
 	}
 	c07GenScenario(r, sc)
 	c07ExtraBlocks = 0
@@ -708,7 +841,7 @@ func c08sGen(r *Rng, i int, tier string) any {
 	rest := arr[nb:]
 	nl := 2 + r.Intn(12)
 	if slow {
-		nl = len(rest)
+		nl = 75 + r.Intn(15) // more than 100 events after the registration
 	}
 	if nl > len(rest) {
 		nl = len(rest)
@@ -719,6 +852,7 @@ func c08sGen(r *Rng, i int, tier string) any {
 		nreq = 2 + r.Intn(2)
 	}
 	in.Tracker = slow || r.Chance(65)
+	in.Commit = r.Chance(50)
 	kinds := []string{"num", "num", "forks", "cursor", "through"}
 	for k := 0; k < nreq; k++ {
 		in.Reqs = append(in.Reqs, c08sReq{Kind: kinds[r.Intn(len(kinds))], Sel: r.Intn(1 << 16), Sel2: r.Intn(1 << 16)})
@@ -726,13 +860,14 @@ func c08sGen(r *Rng, i int, tier string) any {
 	if in.Tracker {
 		in.Reqs[0] = c08sReq{Kind: "num"}
 	}
+	late := slow && r.Chance(50) // the slow subscriber starts reading at the end of the explicit schedule: too late, or just in time
 	if slow {
-		in.Reqs[1].Lazy = true
+		in.Reqs[1].Lazy = !late
 		in.Reqs[1].Kind = []string{"num", "cursor", "through"}[r.Intn(3)]
 	}
 	var sched []int
 	emit := func(tid int) {
-		if tid >= 2 && tid%2 == 0 && in.Reqs[(tid-2)/2].Lazy {
+		if slow && tid == 4 {
 			return
 		}
 		sched = append(sched, tid)
@@ -747,9 +882,14 @@ func c08sGen(r *Rng, i int, tier string) any {
 		}
 		first = 1
 	}
+	if slow {
+		for k := 0; k < 8; k++ {
+			sched = append(sched, 3) // the slow subscriber registers early
+		}
+	}
 	target := 60 + r.Intn(260)
 	if slow {
-		target = 700 + r.Intn(900)
+		target = 500 + r.Intn(900)
 	}
 	pickReq := func() int { return first + r.Intn(nreq-first) }
 	for len(sched) < target {
@@ -834,6 +974,14 @@ func c08sGen(r *Rng, i int, tier string) any {
 			}
 		}
 	}
+	if late {
+		for k := 0; k < 3+r.Intn(6); k++ {
+			sched = append(sched, 4)
+			if r.Chance(30) {
+				sched = append(sched, 0, 2)
+			}
+		}
+	}
 	in.Sched = sched
 	in.Shape = "sched"
 	if in.Tracker {
@@ -870,11 +1018,7 @@ func c08sExec(raw json.RawMessage) (*Case, error) {
 	}
 	steps := make([]string, len(obs.Steps))
 	for i, s := range obs.Steps {
-		q := make([]uint64, len(s.QLen))
-		for j, v := range s.QLen {
-			q[j] = uint64(v)
-		}
-		steps[i] = fmt.Sprintf("(mkSS %d %s %s %d %s %s)", s.T, coqBool(s.Skip), coqBool(s.En), s.Pos, coqBool(s.Arr), coqNList(q))
+		steps[i] = fmt.Sprintf("(mkSS %d %s %s %d %s %d %d)", s.T, coqBool(s.Skip), coqBool(s.En), s.Pos, coqBool(s.Arr), s.QI, s.QV)
 	}
 	order := make([]uint64, len(obs.Order))
 	for i, v := range obs.Order {
